@@ -8,6 +8,10 @@ Definition M (q k : nat) : instr := mkI Measure [q] [k].
 Definition B (qs : list nat) : instr := mkI (Barrier None) qs [].
 Definition G (g : nat) (qs : list nat) : instr := mkI (Gate g) qs [].
 
+(* what the harness writes as the "output" of a call that raised: never equal to a model output
+   (no generated input contains a CutWire marker) *)
+Definition CRASHED : instr := mkI CutWire [] [].
+
 (* exact comparison of instruction lists (the three list passes mutate circuit.data in place) *)
 Definition chk_list (f : nat -> circ -> circ) (nq : nat) (c e : circ) : bool := circ_beq (f nq c) e.
 
